@@ -2,15 +2,13 @@ SPECIFICATION Spec
 CONSTANT Cfg <- MCCfg32q2
 CONSTANT MinDem = 0
 CONSTANT MaxDem = 2
-INVARIANT Protocol
-INVARIANT MaskSound
-INVARIANT MaskShape
-INVARIANT CodeResolutionAdmissible
+INVARIANT FeasibleAlways
+INVARIANT CompletionIsFullSolution
 INVARIANT NoNegativeCapacity
-INVARIANT Total
+INVARIANT DenseTelescopes
+INVARIANT DenseEqSparse
+INVARIANT SparseZeroUntilEnd
 INVARIANT WithinHorizon
 INVARIANT EarlyLastIsCompletion
 INVARIANT CompletionEnds
-PROPERTY IllegalGoesToDepot
-VIEW RulesView
 CHECK_DEADLOCK FALSE
